@@ -98,7 +98,7 @@ Print Assumptions htlc_validated_params_never_abort_partial.
 Theorem service_validated_params_never_abort_refuted :
   exists (p : sv_params) (o : sv_op) (w : Z),
     validate_sv p = Ok /\ sv_small p /\ sv_path p o = Some (Panic w) /\ sv_path sv_defaults o = Some Reject.
-Proof. exists sv_big, (SvBind (2 ^ 200) 5000 3 1000000), 402. exact sv_refuted. Qed.
+Proof. exists sv_big, (SvBind (2 ^ 200) 5000 3 1000000 1), 402. exact sv_refuted. Qed.
 Print Assumptions service_validated_params_never_abort_refuted.
 
 (** ... and holds for non-negative prices below 2^192 and amounts below 2^255 ([sv_small]: the
